@@ -479,6 +479,13 @@ class ApiCheck(object):
                 except Exception as e:
                     self.rep.harness_error('minimiser failed: %r' % (e,))
             replay = self.make_replay(c, v, spec, minimised, len(seen[k]))
+            tries = 1
+            while not replay['confirmed_in_new_zygote'] and tries < min(4, len(seen[k])):
+                # the confirmation run did not reproduce (e.g. this schedule drives a defective tree into a hang and was
+                # killed by the wall cap): report another occurrence of the same violation class instead
+                c, v = seen[k][tries]
+                tries += 1
+                replay = self.make_replay(c, v, c['spec'], False, len(seen[k]))
             self.rep.violation(v, replay)
 
     def make_replay(self, c, v, spec, minimised, occurrences):
